@@ -39,6 +39,12 @@ func c02MakePath(prefix string, tmpl int) c02Path {
 		p.idx = verifIntRange(prefix+"_i", -3, 4)
 		p.hasIx = true
 		p.text, p.name, p.keys = ".KEY1[7770001]", "key[index]", []string{k1}
+	case 3: // a key given as a string, which may be the empty string: .[""] is the entry whose key is ""
+		k := verifStr(prefix+"_k1", 1, "ad")
+		p.text, p.name, p.keys = ".[\"KEY1\"]", "[string-key]", []string{k}
+	case 4: // the same below the map a
+		k2 := verifStr(prefix+"_k2", 1, "ad")
+		p.text, p.name, p.keys = ".a[\"KEY2\"]", "a[string-key]", []string{"a", k2}
 	}
 	return p
 }
@@ -116,9 +122,9 @@ func c02ReadDump(exp *ExpressionNode, doc *CandidateNode) (string, bool) {
 
 // VerifC02PutGetFrame: after `p = v` reading p yields v, and every unrelated path q reads as before.
 func VerifC02PutGetFrame() {
-	kb := verifStrN("kb", 1, "ad")
+	kb := verifStr("kb", 1, "ad")
 	x0, x1, x2, x3 := verifStrN("x0", 1, vDigits()), verifStrN("x1", 1, vDigits()), verifStrN("x2", 1, vDigits()), verifStrN("x3", 1, vDigits())
-	pt := verifChoice("ptmpl", 3)
+	pt := verifChoice("ptmpl", 5)
 	p := c02MakePath("p", pt)
 	vk := verifChoice("vkind", 3)
 	v := verifStrN("v", 1, "49")
@@ -144,7 +150,7 @@ func VerifC02PutGetFrame() {
 	verifObserve("got", got)
 	verifAssert(ok && verifEqStr(got, want), "C02/put-get "+label)
 	// frame: an unrelated path reads the same before and after
-	qt := verifChoice("qtmpl", 3)
+	qt := verifChoice("qtmpl", 5)
 	q := c02MakePath("q", qt)
 	if q.hasIx {
 		verifAssume(q.idx >= 0)
@@ -163,9 +169,9 @@ func VerifC02PutGetFrame() {
 
 // VerifC02PutPutGetPut: `p = v1 | p = v2` equals `p = v2`; `p = p` changes nothing when p has one match.
 func VerifC02PutPutGetPut() {
-	kb := verifStrN("kb", 1, "ad")
+	kb := verifStr("kb", 1, "ad")
 	x0, x1, x2, x3 := verifStrN("x0", 1, vDigits()), verifStrN("x1", 1, vDigits()), verifStrN("x2", 1, vDigits()), verifStrN("x3", 1, vDigits())
-	pt := verifChoice("ptmpl", 3)
+	pt := verifChoice("ptmpl", 5)
 	p := c02MakePath("p", pt)
 	vk1 := verifChoice("vkind1", 3)
 	vk2 := verifChoice("vkind2", 3)
